@@ -83,10 +83,25 @@ pub fn logger() -> slog::Logger {
     slog::Logger::root(slog::Discard, slog::o!())
 }
 
-/// `msd_only`: the default configuration of an aggregator, in which the Mithril stake distribution
-/// is the only signed entity type (one certificate per epoch: an epoch without it is a gap)
-pub fn configuration(dir: &Path, msd_only: bool) -> ServeCommandConfiguration {
-    let types = if msd_only { None } else { Some(SignedEntityTypeDiscriminants::CardanoDatabase.to_string()) };
+/// which signed entity types the aggregator is configured for (the Mithril stake distribution is
+/// always signed)
+#[derive(Clone, Copy, Debug, PartialEq, Eq, serde::Serialize, serde::Deserialize)]
+pub enum Kind {
+    /// + Cardano database (several rounds per epoch)
+    MsdCdb,
+    /// the default configuration: one certificate per epoch, an epoch without it is a gap
+    MsdOnly,
+    /// + Cardano stake distribution: the only entity whose beacon epoch (e) differs from the epoch
+    /// in which it is signed (e+1)
+    MsdCsd,
+}
+
+pub fn configuration(dir: &Path, kind: Kind) -> ServeCommandConfiguration {
+    let types = match kind {
+        Kind::MsdCdb => Some(SignedEntityTypeDiscriminants::CardanoDatabase.to_string()),
+        Kind::MsdOnly => None,
+        Kind::MsdCsd => Some(SignedEntityTypeDiscriminants::CardanoStakeDistribution.to_string()),
+    };
     ServeCommandConfiguration {
         protocol_parameters: Some(protocol_parameters()),
         signed_entity_types: types,
@@ -147,10 +162,14 @@ impl World {
     /// A fresh aggregator at epoch 1 with the genesis certificate stored (state of the integration
     /// tests right after `register_genesis_certificate`).
     pub async fn new(dir: PathBuf, nsigners: usize, msd_only: bool) -> World {
+        World::new_kind(dir, nsigners, if msd_only { Kind::MsdOnly } else { Kind::MsdCdb }).await
+    }
+
+    pub async fn new_kind(dir: PathBuf, nsigners: usize, kind: Kind) -> World {
         let _ = std::fs::remove_dir_all(&dir);
         std::fs::create_dir_all(&dir).unwrap();
         let ctl = crate::ctl::Ctl::install();
-        let config = configuration(&dir, msd_only);
+        let config = configuration(&dir, kind);
         let start = start_time_point();
         let immutable_file_observer = Arc::new(DumbImmutableFileObserver::new());
         immutable_file_observer.shall_return(Some(start.immutable_file_number)).await;
@@ -336,6 +355,9 @@ impl World {
             SignedEntityTypeDiscriminants::MithrilStakeDistribution => SignedEntityType::MithrilStakeDistribution(tp.epoch),
             SignedEntityTypeDiscriminants::CardanoDatabase => {
                 SignedEntityType::CardanoDatabase(CardanoDbBeacon::new(*tp.epoch, tp.immutable_file_number))
+            }
+            SignedEntityTypeDiscriminants::CardanoStakeDistribution => {
+                SignedEntityType::CardanoStakeDistribution(Epoch((*tp.epoch).saturating_sub(1)))
             }
             other => panic!("entity {other} not driven by this harness"),
         }
